@@ -386,8 +386,49 @@ def loop_shape(extra, par, tail):
     return _SHAPES[key]
 
 
+def run_retry(attempts):
+    """one Task whose worker always fails with E1, retried `attempts` times (IntervalSeconds 1, BackoffRate 1)"""
+    w = W.World(tag="c16", oracle=lambda fn, p, k: {"error": "E1", "cause": "again"}, execution_ttl=10 ** 7)
+    try:
+        w.rec.enabled = False
+        w.add_worker("f")
+        asl = S.SM("K", K=S.T("f", Retry=[{"ErrorEquals": ["E1"], "IntervalSeconds": 1, "MaxAttempts": attempts, "BackoffRate": 1.0}], End=True))
+        arn = w.add_sm("m", asl)
+        w.start_raw(arn, {"n": 0}, name="e")
+        w.run(max_steps=10 ** 6)
+        x = W.exec_arn("m", "e")
+        r = w.outcome(x) or {}
+        h = w.i0().engine.execution_history.get(x) or []
+        return r.get("status"), r.get("error"), [e["type"] for e in h]
+    finally:
+        w.close()
+
+
+def retry_hist_case(r):
+    """the history also grows without any state being entered: a retried Task logs its attempts"""
+    if "retry" not in _SHAPES:
+        runs = {k: run_retry(k) for k in (2, 3, 4)}
+        lens = {k: len(runs[k][2]) for k in runs}
+        b = lens[3] - lens[2]
+        if lens[4] - lens[3] != b or b <= 0 or any(runs[k][1] != "E1" for k in runs):
+            raise RuntimeError("the retried Task's history is not linear in its attempts: %r" % (lens,))
+        # events logged after the last attempt began: its own b events and the closing ones
+        _SHAPES["retry"] = (lens[2] - 2 * b, b)
+    a, b = _SHAPES["retry"]
+    attempts = r["attempts"]
+    natural = a + b * attempts
+    status, err, types = run_retry(attempts)
+    failed_for_history = status == "FAILED" and err != "E1"
+    return {"kind": "hist", "natural": natural, "lastEntry": natural - (a + b), "gap": b, "stored": len(types),
+            "failed": failed_for_history, "err": str(err or ""), "recipe": r,
+            "text": "history: one Task retried %d times (natural length %d, the last attempt begins at %d) -> %s %s with %d events stored" % (
+                attempts, natural, natural - (a + b), status, err or "", len(types))}
+
+
 def hist_case(r):
     """target natural length r["natural"]: choose the machine shape whose history can have that length"""
+    if "attempts" in r:
+        return retry_hist_case(r)
     want = r["natural"]
     for par in (0, 1):
         for extra in (0, 1):
@@ -470,6 +511,8 @@ def hist_recipes(thorough):
     # L-2..L+2, and L+3: the first length at which a state is entered beyond the limit (decided: refuse)
     ns = list(range(L_HIST - 2, L_HIST + 4)) + [100, L_HIST + 1000]
     R = [{"point": "history", "natural": n, "tail": "succeed"} for n in ns]
+    # a history that grows by retries only (no state is entered any more)
+    R += [{"point": "history", "natural": 0, "attempts": k} for k in ((100, L_HIST) if not thorough else (100, L_HIST // 2 - 10, L_HIST, 2 * L_HIST))]
     if thorough:
         R += [{"point": "history", "natural": n, "tail": "succeed"} for n in (L_HIST + 4, 2 * L_HIST)]
         R += [{"point": "history", "natural": n, "tail": "pass"} for n in list(range(L_HIST - 2, L_HIST + 7)) + [L_HIST + 1000]]
